@@ -553,11 +553,22 @@ def hOracle (tok scheme rhs : String) : Verdict :=
             ++ " (" ++ toString mism.length ++ " of " ++ toString sets.length ++ " subsets disagree)")
     | _ => .unsupported "rhs"
 
-/-- IDs above 64: the library must build the programme/scheme or refuse with an error, never panic -/
-def hBig (key rhs : String) : Verdict :=
-  if rhs.startsWith "panic" then .bad key ("accepted by the constructor, then " ++ rhs)
-  else if rhs.startsWith "ok" || rhs.startsWith "err:" || rhs.startsWith "new-err:" || rhs.startsWith "deal-err:" then .ok
-  else .unsupported "rhs"
+/-- CNF policies with IDs above 64 (`mspbig`): since /repo 31f4236 `cnf.InducedMSP` orders the maximal
+unqualified sets as descending member lists, so the programme exists and the model predicts it like
+any other; a panic (the former finding) is never an admissible answer -/
+def hMspBig (ps tok rhs : String) : Verdict :=
+  if rhs.startsWith "panic" then .bad "cnf-id-gt64-panic" ("accepted by the constructor, then " ++ rhs)
+  else hMsp ps tok rhs
+
+/-- ISN with IDs above 64 (`isnbig`): share components are keyed by a 64-bit mask, the library
+documents the limit and `isn.NewFiniteScheme` refuses with ErrArgument (since /repo 46a20fd);
+mirrored.  A panic (the former finding) is never an admissible answer. -/
+def hIsnBig (tok rhs : String) : Verdict :=
+  if rhs.startsWith "panic" then .bad "isn-id-gt64-panic" ("accepted by the constructor, then " ++ rhs) else
+  match parsePolicy? tok with
+  | none => .unsupported "policy"
+  | some pol =>
+    if pol.shareholders.any (· > 64) then mirror "err:argument" rhs else mirror "ok" rhs
 
 def handle (op : String) (args : List String) (rhs : String) : Verdict :=
   match op, args with
@@ -587,8 +598,8 @@ def handle (op : String) (args : List String) (rhs : String) : Verdict :=
   | "tassa", [ps, tok, s] => hTassa ps tok s rhs
   | "tassaadd", [ps, tok, cf, qs] => hTassaAdd ps tok cf qs rhs
   | "oracle", [_, tok, scheme, _] => hOracle tok scheme rhs
-  | "mspbig", [_, _] => hBig "cnf-id-gt64-panic" rhs
-  | "isnbig", [_, _] => hBig "isn-id-gt64-panic" rhs
+  | "mspbig", [ps, tok] => hMspBig ps tok rhs
+  | "isnbig", [_, tok] => hIsnBig tok rhs
   | _, _ => .unsupported ("C02 op " ++ op)
 
 end BronVerif.Drive.C02
